@@ -400,6 +400,14 @@ def attacker_resigned(text, tns, tlocal):
         alg = "rsa-sha256"
     for how, kb in (("keyvalue", "KEYVALUE"), ("own-certificate", fed.cert_body(9)), ("no-keyinfo", None)):
         yield "resigned-by-outsider:%s" % how, "sig", sign_element(edited, tns, tlocal, tid, akey, alg, kb)
+    # ... and under a name the receiver holds no key for at all (there is nothing to verify the signature with)
+    de = Doc(edited)
+    te = _first(de, tns, tlocal, tid)
+    iss = te.child(SAML, "Issuer") if te is not None else None
+    if iss is not None:
+        renamed = de.set_text(iss, "https://elsewhere.example.net/idp").text()
+        for how, kb in (("own-certificate", fed.cert_body(9)), ("keyvalue", "KEYVALUE")):
+            yield "resigned-by-outsider:unknown-issuer:%s" % how, "sig", sign_element(renamed, tns, tlocal, tid, akey, alg, kb)
     # diagnostics injection: the genuine signature stays, content is edited (so verification fails), and an algorithm identifier carries
     # line breaks around the word OK - whatever the tool prints about it, that is not a report of success
     d3 = Doc(text)
